@@ -40,6 +40,7 @@ package proxy
 // The sink: handing the request to the upstream handler. `authn` = Authenticate ran for this request
 // and returned nil; the skip-auth rule is evaluated on the request as it arrived.
 //@ func (p *OAuthProxy) Proxy(rw http.ResponseWriter, req *http.Request)
+//@   requires fresh_response: rw.$status == 0
 //@   let authn = called(@Authenticate#1) && @Authenticate#1 == nil && arg(@Authenticate#1, 1) == rw && arg(@Authenticate#1, 2) == req
 //@   sink [C01] mediated: ServeHTTP requires $arg1 == req && (old(skipAuth(p.upstreamConfig, req)) || authn)
 //@   sink [C03] identity_kept: ServeHTTP requires authn ==> req.Header["X-Forwarded-User"] == at(@Authenticate#1, req.Header["X-Forwarded-User"]) && req.Header["X-Forwarded-Email"] == at(@Authenticate#1, req.Header["X-Forwarded-Email"]) && req.Header["X-Forwarded-Groups"] == at(@Authenticate#1, req.Header["X-Forwarded-Groups"]) && req.Header["X-Forwarded-Access-Token"] == at(@Authenticate#1, req.Header["X-Forwarded-Access-Token"])
@@ -127,3 +128,29 @@ package proxy
 //@   ensures [C06] failure_is_not_a_redirect: rw.$sessionCookie != 1 ==> rw.$status != 302
 //@   loop 1
 //@     invariant true
+
+// ---- C18: response hardening ---------------------------------------------------------------------------------
+// setHeaders' closure: every configured (key, value) is on the response before the inner handler runs.
+// Precondition (stated, see DESIGN): the configured keys stay distinct after canonicalisation.
+//@ func setHeaders$1(rw http.ResponseWriter, req *http.Request)
+//@   requires distinct_after_canonicalisation: forall a string, b string {canonhdr(a), canonhdr(b)} :: (a in headers) && (b in headers) && canonhdr(a) == canonhdr(b) ==> a == b
+//@   sink [C18] headers_set_before_inner_handler: ServeHTTP requires $arg0 == rw && $arg1 == req && forall k string :: (k in headers) ==> hdrIs(rw.$hdr, canonhdr(k), headers[k])
+//@   loop 1
+//@     invariant forall k string {canonhdr(k)} :: visited(k) ==> (k in headers) && hdrIs(rw.$hdr, canonhdr(k), headers[k])
+
+//@ func requireHTTPS$1(rw http.ResponseWriter, req *http.Request)
+//@   requires fresh_response: rw.$status == 0
+//@   let plain = old(req.URL.Scheme) != "https" && old(hdrGet(req.Header, "X-Forwarded-Proto")) != "https"
+//@   let dest = arg(@String#1, 0)
+//@   sink [C18] hsts_before_inner_handler: ServeHTTP requires $arg0 == rw && $arg1 == req && !plain && hdrIs(rw.$hdr, "Strict-Transport-Security", "max-age=31536000")
+//@   ensures [C18] plain_http_upgraded: plain ==> !called(@ServeHTTP#1) && rw.$status == 301 && hdrIs(rw.$hdr, "Strict-Transport-Security", "max-age=31536000") && called(@String#1) && rw.$location == @String#1
+//@   ensures [C18] upgrade_same_host_path_query: plain ==> at(@String#1, dest.Scheme) == "https" && at(@String#1, dest.Host) == old(req.Host) && at(@String#1, dest.Path) == old(req.URL.Path) && at(@String#1, dest.RawQuery) == old(req.URL.RawQuery) && at(@String#1, dest.Opaque) == "" && at(@String#1, dest.Fragment) == "" && at(@String#1, dest.User) == nil
+
+// ModifyResponse of the reverse proxy: what the upstream sent under a protected header name is removed
+// before the response is copied to the client (the outer setHeaders wrappers already set the proxy's values).
+//@ func NewUpstreamReverseProxy$1(resp *http.Response) error
+//@   modifies hdrmap(resp.Header)
+//@   ensures [C18] security_headers_removed: result == nil && forall k string :: (k in securityHeaders) ==> hdrAbsent(resp.Header, canonhdr(k))
+//@   ensures [C18] hsts_removed: hdrAbsent(resp.Header, "Strict-Transport-Security")
+//@   loop 1
+//@     invariant forall k string :: visited(k) ==> hdrAbsent(resp.Header, canonhdr(k))
